@@ -297,9 +297,14 @@ const (
 
 func vMin(a, b int) int { return vIte(a < b, a, b) }
 
+// vTrailSlash: the path most recently given to vSegments ends in a slash
+// (set there, read by refPathMatch for one unspecified zone).
+var vTrailSlash bool
+
 // vSegments is the oracle's own tokenisation of the flat request path.
 // canon: exactly one leading slash and at most one trailing slash.
 func vSegments(p string) (segs []string, canon bool) {
+	vTrailSlash = vAnd(strings.HasSuffix(p, "/"), p != "/")
 	canon = vAnd(strings.HasPrefix(p, "/"), vAnd(!strings.HasPrefix(p, "//"), !strings.HasSuffix(p, "//")))
 	if p == "/" {
 		return nil, canon
@@ -356,6 +361,11 @@ func refPathMatch(toks []vTok, segs []string) int {
 		if m == n-1 {
 			res = refUnspec
 		}
+	} else if n == m+1 && toks[n-1].kind == tkRegex && toks[n-1].verb == "" && vRx("^(?:"+toks[n-1].re+")$").MatchString("") {
+		// "/t/" against /t/{v:[0-9]*}: behind the trailing slash there is an empty segment which the
+		// variable's expression admits; the statement does not say whether that counts as a segment
+		res = vIte(vTrailSlash, refUnspec, refNo)
+		limit = m
 	} else if n != m {
 		return refNo
 	}
